@@ -625,15 +625,12 @@ func Uint64PercentageDiv(dividend, divisor uint64) (percent uint64) {
 		// exit with 0
 		return 0
 	}
-	// calculate the percent
-	percent = (dividend * 100) / divisor
-	// ensure the percent can't exceed 100
-	if percent > 100 {
-		// cap the percent at 100
-		percent = 100
+	// the percent can't exceed 100
+	if dividend >= divisor {
+		return 100
 	}
-	// exit
-	return percent
+	// calculate the percent (dividend*100 wraps a uint64 for a dividend above 2^64/100: multiply in big integers)
+	return SafeMulDiv(dividend, 100, divisor)
 }
 
 // Uint64Percentage() calculates the percentage of an amount
